@@ -641,7 +641,7 @@ def function_queue(repo, chk, gf, rule='C01.A1'):
             g.env.funcs.setdefault(s_.name, {})[s_.abstract_params] = A.FuncDeclaration.__new__(A.FuncDeclaration)
         order = []
 
-        def fake_gen_func(csig, decl):
+        def fake_gen_func(csig, *_rest):
             order.append(csig)
             if csig == sigs[1]:
                 g.label_for_func(late)          # a call discovered while generating f(int)
